@@ -573,7 +573,8 @@ def _rearrange_to_explicit_ode(y: np.ndarray, coeff_b: np.ndarray, fx: np.ndarra
             stacklevel=2,
         )
 
-    result = fx
+    # copy: fx is the array returned by the user's right-hand-side function and must not be modified
+    result = np.array(fx, dtype=float)
     # Go through all rows except the last-element.
     for i, b in enumerate(coeff_b[:-1]):
         # array of size N: a_k(x_n) * (d^k y(x_n) / d x^k)
